@@ -134,7 +134,42 @@ def r4(ctx, prop=P, rule="C14.R4"):
 
 for _r in (r1, r2, r3):
     _r.needs_feature = "cache"
-RULES = [r1, r2, r3, r4]
+def pending_first(ctx, prop, rule):
+    """the functions that answer a seek work in passes: a node that is not in memory becomes a read
+    instruction and the caller asks again.  Whether a node is in memory depends on the node cache
+    and on what has been flushed, so the ANSWER must not be given while an instruction is pending —
+    otherwise cache-on and cache-off cores (or a core before and after a flush) serve different
+    proofs for the same request (defect D21).  Clause: no `Ok(Right(position))` can be reached from
+    a place that recorded an instruction, except under `instructions.is_empty()`."""
+    n = 0
+    for nm in ("tree::merkle_tree::MerkleTree::seek_from_head", "tree::merkle_tree::MerkleTree::seek_untrusted_tree", "tree::merkle_tree::MerkleTree::seek_trusted_tree"):
+        fa = ctx.fn(nm)
+        if not need(ctx, prop, rule, nm, fa):
+            continue
+        short = nm.split("::")[-1]
+        rec = [s_ for s_, t_ in fa.calls() if (t_.get("callee") or "").split("::")[-1] in ("push", "extend", "extend_from_slice") and "StoreInfoInstruction" in (t_.get("callee_full") or "") + " ".join(t_.get("arg_tys") or [])]
+        if not need(ctx, prop, rule, "%s: places that record a read instruction" % short, rec):
+            continue
+        empt = [tr for _, o, tr, fl in bool_switches(fa, lambda o: o[0] == "call" and o[2].split("::")[-1] == "is_empty") if tr is not None]
+        bad = []
+        for bb, _, t_ in ok_returns(fa):
+            if not is_agg(agg_field(t_, "0"), "Right"):
+                continue
+            n += 1
+            if any(fa.can_reach(r_, bb) or r_ == bb for r_ in rec) and not any(fa.dominates(e_, bb) for e_ in empt):
+                bad.append(loc(fa, bb))
+        ctx.check(prop, rule, "%s gives no answer while a read instruction is pending" % short, not bad, "every Ok(Right(position)) reachable from a recorded instruction lies under instructions.is_empty()",
+                  "%s can return a position at %s after it recorded a read instruction for a node that was not in memory: the arithmetic went on without that node's length, and the answer depends on whether the node cache is enabled and on what has been flushed" % (short, bad),
+                  bad, key="%s|%s|%s|answer while instructions pending" % (prop, rule, short))
+    if n < 4 and ctx.crate.name == "hypercore":
+        ctx.missing(prop, rule, "Ok(Right(..)) results of the seek functions", "found %d (floor 4)" % n)
+
+
+def r7(ctx):
+    pending_first(ctx, P, "C14.R7")
+
+
+RULES = [r1, r2, r3, r4, r7]
 CONTROLS = ["c14_cache_insert_elsewhere"]
 CONFIGS_THOROUGH = ["all", "default"]
 EXPLANATION = ("C14 (independence of backend and node cache): decides that the node cache is written only by to_node_cache and infos_to_nodes (R1), that what enters it is exactly node_from_bytes(index, "
